@@ -10,6 +10,7 @@ import (
 	"os"
 	"path/filepath"
 	"sort"
+	"strconv"
 	"strings"
 	"sync"
 
@@ -416,6 +417,38 @@ func (u *Unit) runRoot() {
 		}
 	}
 	u.entry = st.clone()
+	// every call-site assertion must have its call site: a call that was dropped from the body takes its assertion with it,
+	// which must not pass silently (syntactic count over the function's own instructions)
+	if u.spec != nil && !u.discovery {
+		counts := map[string]int{}
+		for _, b := range fn.Blocks {
+			for _, in := range b.Instrs {
+				if ci, ok := in.(ssa.CallInstruction); ok {
+					if _, isGo := in.(*ssa.Go); isGo {
+						continue
+					}
+					if n := calleeName(ci.Common()); n != "" {
+						counts[n]++
+					}
+				}
+			}
+		}
+		for _, cl := range u.spec.Asserts {
+			if !strings.HasPrefix(cl.Kind, "assert@") || cl.Kind == "assert@return" {
+				continue
+			}
+			at := strings.TrimPrefix(cl.Kind, "assert@")
+			i := strings.LastIndex(at, "#")
+			if i < 0 {
+				continue
+			}
+			n, _ := strconv.Atoi(at[i+1:])
+			if counts[at[:i]] <= n {
+				u.failed = fmt.Sprintf("%s:%d: call site %s of assertion %s is not in the function (it has %d calls of %s)", cl.File, cl.Line, at, clauseKey(cl), counts[at[:i]], at[:i])
+				return
+			}
+		}
+	}
 	fr.run(st)
 	if u.failed != "" || u.discovery || u.noObls {
 		return
